@@ -52,12 +52,16 @@ def system_level(ctx, binary, projects, limit):
                 return programs.parse_dump(open(p, "rb").read())
             except Exception as ex:
                 return None
-        if r2 is not None and not programs.same_output(r1[1], r2[1], proj):
+        if r2 is not None and not programs.same_output(r1[1].replace(d + os.sep, ""), r2[1].replace(d2 + os.sep, ""), proj):
             # HashMap iteration order differs from run to run: a program whose own output is not
             # reproducible is not compared
             again = programs.run_bin(binary, ["run", e, "-q"], d)
             if not programs.same_output(r1[1], again[1], None):
-                r2 = (r2[0], r1[1], r2[2])
+                r2 = (r2[0], r1[1].replace(d + os.sep, d2 + os.sep), r2[2])
+        # a printed function value shows the path of its file as compiled: the two scratch copies of the project differ
+        # in nothing but their own location
+        unloc = lambda r, dd: r if r is None else (r[0], r[1].replace(dd + os.sep, ""), r[2].replace(dd + os.sep, ""))
+        r1, r2, same_spelling = unloc(r1, d), unloc(r2, d2), unloc(same_spelling, d2)
         res = (proj, r1, c, r2, rd(os.path.join(d, "dump1")), rd(os.path.join(d2, "dump2")), same_spelling)
         shutil.rmtree(d, ignore_errors=True)
         shutil.rmtree(d2, ignore_errors=True)
